@@ -23,4 +23,5 @@ for sid in sorted(d for d in os.listdir(ROOT) if os.path.isdir(os.path.join(ROOT
         caught = ["**not detected** - " + (m.get("why_not_detected") or "")]
     h = hist.get(sid, {})
     miss = ("yes – " + h.get("strengthened", "")) if h.get("missed_at_first") else "no"
-    print(f"| {sid} | {m['breaks_property']} | {m['needs_to_manifest']} | {'; '.join(caught) or 'n/a'} | {miss} |")
+    cell = lambda t: str(t).replace("|", "/").replace("\n", " ")
+    print(f"| {sid} | {m['breaks_property']} | {cell(m['needs_to_manifest'])} | {cell('; '.join(caught) or 'n/a')} | {cell(miss)} |")
